@@ -262,6 +262,11 @@ def eof_conflate(ctx, lexpr):
     for f in lexpr.fns:
         if f.kind == "closure" or not common.in_file(f, "lexpr/src/parse/mod.rs", "lexpr/src/parse/read.rs"):
             continue
+        if f.path in wrappers and any(f.local_ty(i).endswith("error::ErrorCode") for i in range(1, f.arg_count + 1)):
+            # a wrapper that raises the code its caller passes (`next_or(read, eof_code)`): it is looked through at every
+            # call site, where the code is known
+            r.note("%s raises the error code it is given: evaluated at its call sites" % f.path)
+            continue
         touched = False
         for k in range(0, 5):
             S = sim.Sim([lexpr], hooks={"call": eof_hook(k)}, inline=inl, max_paths=40000)
